@@ -1458,3 +1458,11 @@ Proof.
   destruct (elo_total alts prefs H1 H2 H3) as (b & ax' & E' & Hs). rewrite E in E'.
   injection E' as <- <-. now apply Hs.
 Qed.
+
+Theorem elo_sound_spec alts prefs ax : wf_strict_profile alts prefs ->
+  elo alts prefs = Ok (true, ax) ->
+  (NoDup ax /\ forall a, In a ax <-> In a alts) /\ SP_axis prefs ax.
+Proof.
+  intros Hwf E. pose proof (elo_sound alts prefs ax Hwf E) as H. destruct Hwf as (H1 & H2 & _).
+  now apply sp_check_axis_correct in H.
+Qed.
